@@ -1,6 +1,7 @@
 import ChiProofs.Lemmas.FilterCalc
 import ChiProofs.Lemmas.FilterDoc
 import ChiProofs.Lemmas.FilterPerm
+import ChiProofs.Lemmas.FilterNested
 
 /-!
 # C12 — population filters use the documented estimators; missing-data invariant; exact gradients
@@ -675,5 +676,132 @@ theorem C12_sort_times_inplace_counterexample :
       H.deref st = some G ∧ H.deref st' = some G' ∧ G.obs 0 0 0 = some 0 ∧ G'.obs 0 0 0 = some 1 := by
   intro st F H
   simp [sortTimesRefInPlace, FiltRef.deref, Filt.sortTimes, hasDup, st, F, H]
+
+/-! ## nested compositions; common shifts and scales (lemmas in `Lemmas/FilterNested.lean`) -/
+
+/-- a composed filter ANYWHERE in a nested composition that was sorted with `sort_times(order)` and is handed
+    consistently reordered simulated values has the value of the unsorted composed filter on the unsorted
+    values: the deferred order of an inner composed filter is honoured -/
+theorem C12_nested_time_reorder (cs : List (FTree ℝ)) (n : Nat) (y : Nat → Nat → Nat → ℝ)
+    (ord : List Nat) (hw : FTree.WFL cs) (h : ord.Perm (List.range (FTree.sumT cs))) :
+    (FTree.node cs (some ord)).val n (fun s r j => y s r (ord.getD j 0)) = (FTree.node cs none).val n y := by
+  simp only [FTree.val, presortOrd]
+  refine FTree.valFrom_congr n cs 0 _ _ hw (fun s r j _ hj => ?_)
+  rw [Nat.zero_add] at hj
+  simp only [argsort_inverse _ ord h j hj]
+
+/-- … and its sensitivities come back in the order of its input -/
+theorem C12_nested_time_reorder_grad (cs : List (FTree ℝ)) (n : Nat) (y : Nat → Nat → Nat → ℝ)
+    (ord : List Nat) (hw : FTree.WFL cs) (h : ord.Perm (List.range (FTree.sumT cs))) (s r j : Nat)
+    (hj : j < FTree.sumT cs) :
+    (FTree.node cs (some ord)).grad n (fun s r j => y s r (ord.getD j 0)) s r j
+      = (FTree.node cs none).grad n y s r (ord.getD j 0) := by
+  simp only [FTree.grad, presortOrd]
+  refine FTree.gradFrom_congr n cs 0 _ _ hw (fun s r j _ hj => ?_) s r _ (Nat.zero_le _) (by
+    rw [Nat.zero_add]; exact getD_lt_of_perm _ ord h j hj)
+  rw [Nat.zero_add] at hj
+  simp only [argsort_inverse _ ord h j hj]
+
+/-- a nested composition (composed filters as sub-filters, each with its own deferred time order, to any
+    depth) has the value of the FLAT composition of its simple filters, evaluated on the input columns given
+    by the index map `FTree.col`: with `C12_gaussian_is_documented` … every non-missing measurement is scored
+    once, with the documented density, at the simulated values of the column that models its time point -/
+theorem C12_nested_is_flat (t : FTree ℝ) (n : Nat) (y : Nat → Nat → Nat → ℝ) :
+    t.val n y = (Comp.mk t.leaves none).val n (fun s r k => y s r (t.col k)) := by
+  simp only [Comp.val, Comp.presort]
+  exact FTree.val_flat n t y
+
+/-- the number of time points of a nested composition is that of its simple filters -/
+theorem C12_nested_n_times (t : FTree ℝ) : (Comp.mk t.leaves none).T = t.T := by
+  simp only [Comp.T]; exact FTree.leaves_T t
+
+/-- what a constructor that replaces a composed sub-filter by that filter's own sub-filters (NOT chi) would
+    do: the inner filter's deferred order is lost.  Two Gaussian filters with one measurement each (`0` at the
+    first, `1` at the second time point), composed and sorted with `sort_times([1, 0])`, then nested; simulated
+    values `{0, 2}` in the first and `{-1, 1}` in the second input column.  chi's nested filter scores each
+    measurement at the mean of its own time point; the flattened one is off by `1/2`. -/
+theorem C12_nested_flatten_counterexample :
+    let F0 : Filt ℝ := ⟨.gauss, 1, 1, 1, fun _ _ _ => some 0⟩
+    let F1 : Filt ℝ := ⟨.gauss, 1, 1, 1, fun _ _ _ => some 1⟩
+    let t : FTree ℝ := .node [.node [.leaf F0, .leaf F1] (some [1, 0])] none
+    let y : Nat → Nat → Nat → ℝ := fun s _ j =>
+      if j = 0 then (if s = 0 then 0 else 2) else (if s = 0 then -1 else 1)
+    t.WF ∧ t.val 2 y = t.flattenDroppingOrders.val 2 y + 1 / 2 := by
+  intro F0 F1 t y
+  refine ⟨?_, ?_⟩
+  · simp [t, FTree.WF, FTree.WFL, FTree.sumT, FTree.T, F0, F1, List.range, List.range.loop]
+    exact List.Perm.swap 0 1 []
+  · simp only [t, FTree.val, FTree.valFrom, FTree.flattenDroppingOrders, FTree.leaves, FTree.leavesL,
+      Comp.val, Comp.presort, compValFrom, presortOrd, argsort_swap, FTree.T, Filt.val, filterVal,
+      cellVal, gfCell, gfTerm, msum, meanI, varI, isum_eq, shiftT, F0, F1, y]
+    simp [Finset.sum_range_succ]
+    rw [compValFrom, compValFrom, compValFrom]
+    simp [Filt.val, filterVal, cellVal, gfCell, gfTerm, msum, meanI, varI, isum_eq, shiftT, Finset.sum_range_succ]
+    norm_num
+
+/-- the Gaussian, Gaussian-KDE and Gaussian-mixture densities of a cell do not change when the measurements
+    and the simulated values of the cell are shifted by a common constant: only differences enter.  (This is
+    the reference the harness uses for values of large magnitude and small spread.) -/
+theorem C12_shift_invariant (k : FKind) (m n : Nat) (o : Nat → Option ℝ) (y : Nat → ℝ) (c : ℝ)
+    (hk : match k with
+      | .gauss => 0 < n
+      | .gkde => 0 < n
+      | .mix K => 0 < n / K
+      | _ => False) :
+    cellVal k m n (fun i => (o i).map (· + c)) (fun s => y s + c) = cellVal k m n o y := by
+  cases k with
+  | gauss => simp only [cellVal, gfCell, msum_map, meanI_shift n hk, varI_shift n hk, gfTerm_shift]
+  | gkde => simp only [cellVal, kdeCell, msum_map, kdeTerm_shift n hk]
+  | mix K => simp only [cellVal, mixCell, msum_map, mixTerm_shift K _ hk]
+  | lognorm => exact hk.elim
+  | lnkde => exact hk.elim
+
+/-- … for a whole filter, with a different constant in every (observable, time) cell -/
+theorem C12_shift_invariant_filter (k : FKind) (m n R T : Nat) (obs : Nat → Nat → Nat → Option ℝ)
+    (y : Nat → Nat → Nat → ℝ) (c : Nat → Nat → ℝ)
+    (hk : match k with
+      | .gauss => 0 < n
+      | .gkde => 0 < n
+      | .mix K => 0 < n / K
+      | _ => False) :
+    filterVal k m n R T (fun i r j => (obs i r j).map (· + c r j)) (fun s r j => y s r j + c r j)
+      = filterVal k m n R T obs y := by
+  simp only [filterVal]
+  congr 1; funext r; congr 1; funext j
+  exact C12_shift_invariant k m n (fun i => obs i r j) (fun s => y s r j) (c r j) hk
+
+/-- the log-normal and log-normal-KDE densities under a common SCALE `a > 0` of measurements and simulated
+    values: every non-missing measurement contributes `- log a` (the Jacobian), nothing else changes -/
+theorem C12_scale_lognormal (k : FKind) (m n : Nat) (hn : 0 < n) (o : Nat → Option ℝ) (y : Nat → ℝ)
+    (a : ℝ) (ha : 0 < a) (hy : ∀ s, 0 < y s) (ho : ∀ i v, o i = some v → 0 < v)
+    (hk : k = .lognorm ∨ k = .lnkde) :
+    cellVal k m n (fun i => (o i).map (a * ·)) (fun s => a * y s)
+      = cellVal k m n o y - mcount m o * Real.log a := by
+  have hly : logv (fun s => a * y s) = fun s => logv y s + Real.log a := by
+    funext s
+    simp only [logv, log_real]
+    rw [Real.log_mul ha.ne' (hy s).ne', add_comm]
+  have hlo : logo (fun i => (o i).map (a * ·)) = fun i => (logo o i).map (· + Real.log a) := by
+    funext i
+    simp only [logo]
+    cases h : o i with
+    | none => rfl
+    | some v =>
+      simp only [Option.map_some, log_real]
+      rw [Real.log_mul ha.ne' (ho i v h).ne', add_comm]
+  have hcount : mcount m (logo o) = mcount m o := by
+    simp only [mcount, msum, logo]
+    congr 1; funext i; cases o i <;> rfl
+  rcases hk with rfl | rfl
+  · have ht : ∀ mu var lv c : ℝ, lnTerm (mu + c) var (lv + c) = lnTerm mu var lv + 2 * c := by
+      intro mu var lv c; simp only [lnTerm, add_sub_add_right_eq_sub, two_real]; ring
+    simp only [cellVal, lnfCell, hly, hlo, msum_map, meanI_shift n hn, varI_shift n hn, ht,
+      msum_add, msum_const, hcount, two_real]
+    ring
+  · have ht : ∀ lv : ℝ, kdeTerm n (fun s => logv y s + Real.log a) (lv + Real.log a) - (lv + Real.log a)
+        = (kdeTerm n (logv y) lv - lv) + (-Real.log a) := by
+      intro lv; rw [kdeTerm_shift n hn]; ring
+    simp only [cellVal, lnkdeCell, hly, hlo, msum_map, ht, msum_add, msum_const, hcount]
+    ring
 
 end ChiModel
